@@ -102,6 +102,11 @@ func VerifC16_DHCPEnd() {
 		vAssert(qm.VerifHolds(ip), "an established session holds its QoS policy")
 	}
 	if stage == 2 {
+		if ndPick("renewal-after-expiry", 2) == 1 {
+			// the renewal arrives after the lease ran out but before the cleanup sweep noticed
+			vAdvance(int64(p.LeaseTime) + 1e9)
+			vTag("late-renewal")
+		}
 		if cid != nil {
 			opt82 = ndPick("renewal-option82", 3) // some relays add only their remote-id, or nothing, to a unicast renewal
 		}
